@@ -80,6 +80,15 @@ var zzNames = []string{"a", "b", "c", "d"}
 // runs the real NewInfo on it and returns its result. Strings are concrete
 // (paths are the business of the path-confinement property).
 func ZZSymbolicInfo(maxFiles, maxPieces int, pad bool) (*Info, error, infoType) {
+	b, ib := ZZPrepareSymbolicInfo(maxFiles, maxPieces)
+	info, err := NewInfo(b, true, pad)
+	return info, err, ib
+}
+
+// ZZPrepareSymbolicInfo makes the decoder yield an arbitrary info dictionary
+// (see ZZSymbolicInfo) for whoever calls NewInfo next; natively it returns
+// the dictionary really bencoded.
+func ZZPrepareSymbolicInfo(maxFiles, maxPieces int) ([]byte, infoType) {
 	var ib infoType
 	ib.PieceLength = vrt.U32("piece_length")
 	np := vrt.Choice("num_piece_hashes", maxPieces+2)
@@ -105,8 +114,7 @@ func ZZSymbolicInfo(maxFiles, maxPieces int, pad bool) (*Info, error, infoType) 
 	if !vrt.Symbolic() {
 		b = zzEncode(ib)
 	}
-	info, err := NewInfo(b, true, pad)
-	return info, err, ib
+	return b, ib
 }
 
 // ZZNewInfoWellFormed: whatever the decoder produced, NewInfo rejects it or
